@@ -12,6 +12,7 @@ def int_grid():
           (1 << 32) - 1, 1 << 32, (1 << 32) + 1, M64 ^ 0x7fffffff, M64 ^ 0x80000000, 0xffffffff80000000,
           0xffffffff7fffffff, 0x00000000ffffffff, 0xffffffff00000000, 0xdeadbeef00000001, 0x12345678ffffffff,
           0xaaaaaaaa80000000, 0x5555555500000000]
+    g += [M64 - 127, M64 - 128, M64 - 0x7fff, M64 - 0x8000]          # -128 -129 -32768 -32769
     for k in (1, 2, 4, 5, 8, 15, 16, 30, 31, 32, 33, 47, 62, 63):
         g += [1 << k, ((1 << k) - 1) & M64, ((1 << k) + 1) & M64, (-(1 << k)) & M64]
     out = []
@@ -83,8 +84,11 @@ def rand_val(kind, rng, opname='', pos=0):
 def mem_desc(rng, ty, forms=FORMS):
     form = rng.choice(forms)
     scale = rng.choice([1, 2, 4, 8])
-    disp = rng.choice([0, 8, -8, 24, 1000, -129, 0x7fffffff, -0x80000000, 127, 128, 1 << 33]) if 'd' in form else 0
-    index = rng.choice([0, 1, -1, 3, -5, 1000]) if 'i' in form else 0
+    disp = rng.choice([0, 8, -8, 24, 1000, -129, -128, 0x7fffffff, -0x80000000, 0x80000000, -0x80000001, 0xffffffff, 127, 128, 1 << 33,
+                       -(1 << 40) + 3]) if 'd' in form else 0
+    index = rng.choice([0, 1, -1, 3, -5, 1000, 0x7fffffff, -0x80000000, 1 << 32]) if 'i' in form else 0
+    if 'b' in form and 'i' in form and rng.random() < 0.15:
+        index = (1 << 61) * rng.choice([1, 3, -1]) + rng.choice([0, 1, -7])     # index * scale wraps modulo 2^64
     return 'm%s,%s,%d,%d,%d' % (ty, form, scale, disp, index)
 
 
@@ -127,7 +131,8 @@ def operand_text(kind, shape, val, rng, c20=False):
     return mem_desc(rng, ty, forms) + ':%x' % (val & ((1 << (8 * TYPE_SIZE[ty])) - 1))
 
 
-def gen_case(info, rng, cid, vals=None, shapes=None, dst=None, br=None, c20=False, pre=None, post=None, prime=None, press=None):
+def gen_case(info, rng, cid, vals=None, shapes=None, dst=None, br=None, c20=False, pre=None, post=None, prime=None, press=None, far=None,
+             bover=None, optexts=None):
     """returns the case line for the harness"""
     kinds = (info.res if info.res != '-' else '-') + info.args + ('-' if len(info.args) == 1 else '')
     nsrc = len(info.args)
@@ -144,6 +149,8 @@ def gen_case(info, rng, cid, vals=None, shapes=None, dst=None, br=None, c20=Fals
             else:
                 shapes.append('m')
     ops = [operand_text(k, s, v, rng, c20) for k, s, v in zip(info.args, shapes, vals)]
+    if optexts is not None:          # operand texts given by the caller (aimed operand classes)
+        ops = list(optexts)
     if nsrc == 1:
         ops.append('-')
     if info.res == '-':
@@ -178,8 +185,13 @@ def gen_case(info, rng, cid, vals=None, shapes=None, dst=None, br=None, c20=Fals
         line += ' post=' + post
     if prime is not None:
         line += ' prime=%d' % prime
-    if (info.res == '-' or info.name in OVF) and rng.random() < 0.4:
+    branchy = info.res == '-' or info.name in OVF
+    if branchy and (bover if bover is not None else rng.random() < 0.4):
         line += ' bover=1'       # the branch jumps over an unconditional jump (rewritten with the reversed branch)
+    if far is None:
+        far = (branchy or (post or '').startswith('B')) and rng.random() < 0.15
+    if far and (branchy or (post or '').startswith('B')):
+        line += ' far=1'         # the branch target is more than 128 bytes away (rel32 forms of the branch patterns)
     if (press is None and d in ('r', 'x') and shapes[0] == 'r' and info.res == 'i' and info.args[0] == 'i' and not (pre or post)
             and rng.random() < 0.05):
         press = rng.choice([14, 20, 28])
@@ -188,6 +200,108 @@ def gen_case(info, rng, cid, vals=None, shapes=None, dst=None, br=None, c20=Fals
         # the memory forms of the instruction patterns); pmask = the defined result bits
         line += ' press=%d pmask=%x' % (press, info.mask)
     return line
+
+
+# ---------------------------------------------------------------- far branches, special cases
+FAR_STEPS = 24
+FILL8 = 0xA5A5A5A5A5A5A5A5
+
+
+def far_value():
+    """what harness far_filler leaves in block[240..248)"""
+    t = FILL8
+    for i in range(FAR_STEPS):
+        c = 0x1234567 + i * 0x10101
+        t = (t + c) & M64 if i % 2 == 0 else t ^ c
+    return t
+
+
+def far_executed(c, flag):
+    """is the filler on the executed path?  plain shape: on the fall-through path; bover shape: on the taken path"""
+    return (flag == 1) if c.get('bover') in ('1', 1) else (flag == 0)
+
+
+LD_ONE, LD_TWO = 0x3fff8000000000000000, 0x40008000000000000000
+
+
+def special_lines(rng, quick, c20=False):
+    """cases around instructions whose documented effect is not a function of operand values: stack allocation,
+    block start/end, switch, label address + indirect jump, calls (also the long double result registers)"""
+    out = []
+    n = [0]
+
+    def add(op, dst, x, y, extra=''):
+        n[0] += 1
+        out.append('z%d @%s iii %s %s %s%s' % (n[0], op, dst, x, y, extra))
+    sizes = [16, 24, 4096, 100000] if quick else [16, 17, 24, 31, 32, 33, 100, 4095, 4096, 4097, 65536, 100000, 1 << 20]
+    for sz in sizes:
+        v = rng.getrandbits(64)
+        add('ALLOCA', 'r', 'r:%x' % sz, 'r:%x' % v)
+        add('ALLOCA', 'r', 'i:%x' % sz, 'i:%x' % (v & 0x7fffffff))
+    for sz, cnt in ([(16, 1), (4096, 200), (24, 1000)] if quick else [(16, 1), (16, 2), (4096, 200), (24, 1000), (65536, 50), (40, 5000)]):
+        add('BLOCK', 'r', 'r:%x' % sz, 'r:%x' % cnt)
+        add('BLOCK', 'r', 'i:%x' % sz, 'r:%x' % cnt)
+    for sel in range(5):
+        add('SWITCH', 'r', 'r:%x' % sel, 'r:0')
+        add('SWITCH', 'r', 'r:%x' % sel, 'r:0', ' far=1')
+    for sel in (0, 1, 5):
+        for viamem in (0, 1):
+            add('JMPI', 'r', 'r:%x' % sel, 'r:%x' % viamem)
+    for _ in range(3 if quick else 12):
+        a, b = rng.choice(int_grid()), rng.getrandbits(64)
+        for dst in 'rx':
+            add('CALL', dst, 'r:%x' % a, 'r:%x' % b)
+            add('CALL', dst, 'i:%x' % (a & 0x7fffffff), 'r:%x' % b)
+    if not c20:          # multiple results cannot be translated to C; long double results are a C02 concern (st0 / st1)
+        for v in (LD_ONE, 0x4000c90fdaa22168c235, 0, 0x7fff8000000000000000):
+            add('CALLLD', 'r', 'r:%x' % v, 'r:0')
+            add('CALLLD2', 'r', 'r:%x' % v, 'r:0')
+    return out
+
+
+def ld_double(v):
+    """x87 pattern of v + v for the few values special_lines uses (exponent + 1 for normal numbers)"""
+    e = (v >> 64) & 0x7fff
+    if e == 0 or e == 0x7fff:
+        return v
+    return v + (1 << 64)
+
+
+def special_expect(c):
+    """expected observation of a special case (see harness build_special)"""
+    k = c['op'][1:]
+    x, y = c['x']['val'], c['y']['val']
+    e = dict(ret=0, retmask=M64, writes={}, nan=None, dontcare=set())
+
+    def put(off, v, n=8):
+        for i, b in enumerate(le_bytes(v, n)):
+            e['writes'][off + i] = b
+    if k == 'ALLOCA':
+        e['ret'] = (y + 3 * (y + 1) + 5 * (y + 2) + 7 * (y + 3)) & M64
+        put(96, 0)
+        put(112, 1)
+    elif k == 'BLOCK':
+        r = 0
+        for i in range(y):
+            r = (r * 3 + i) & M64
+        e['ret'] = r
+    elif k == 'SWITCH':
+        e['ret'] = 100 + 7 * x
+        if c.get('far') in ('1', 1):
+            put(240, far_value())
+    elif k == 'JMPI':
+        e['ret'] = 2 if x != 0 else 1
+        if y != 0:
+            e['dontcare'] |= set(range(200, 208))      # a code address
+    elif k == 'CALL':
+        e['ret'] = (x * 3 + y) & M64
+    elif k in ('CALLLD', 'CALLLD2'):
+        put(96, ld_double(x), 10)
+        if k == 'CALLLD2':
+            put(192, x, 10)
+    else:
+        return None
+    return e
 
 
 # ---------------------------------------------------------------- expectation
@@ -210,6 +324,10 @@ def parse_case(line):
         k, _, v = t.partition('=')
         c[k] = int(v) if k == 'prime' else v
     return c
+
+
+def is_special(c):
+    return c['op'].startswith('@')
 
 
 def parse_obs(tok):
